@@ -58,6 +58,20 @@ CFG = {
             "hex digit, non-hex letter, raw UTF-8 lead byte; codes `#41 #4A #4a #00 #e9 #a9 #23`), one code after 0..5 and before 0..5 plain bytes, two codes 0..3 bytes "
             "apart, x terminators, under op (cursor 0 and after a blank, restricted view), name and obj:3 (`/` + token): besides the location clauses the oracle checks "
             "that the VALUE of a name / operator is the decoding of its reported span (independent left-to-right `#hh` decoder, class value-not-text-of-span); "
+            "CUT WINDOWS (case `v<a>-<b>[,<a2>-<b2>]@<parser> <storage> <pos>`: the parser runs on RestrictView(a, b-a) of a storage that CONTINUES behind the view - "
+            "then on a view of that view -, expected = model / oracle on the window's bytes alone, the re-parse runs on the view of the same storage restricted to the span): "
+            "(1) ~95 token storages (the token list + tokens with an interesting END: ` 0 R` look-ahead after an integer, comment EOL, stream data + EOL + `endstream`, closing "
+            "delimiters, glued keywords) after a lead and before a follower (quick: one rotating lead/follower; thorough: 5 leads x 3 followers, among them bytes that would "
+            "complete / extend the token), cursor at the token, EVERY window [a,b) with a in {0, cursor} and cursor <= b <= |storage| (view ends before the token, inside it at every "
+            "byte, exactly at its end, inside and after its look-ahead), each also nested in a window one byte wider on both sides, under all 31 parsers of the exhaustive run + "
+            "Alternate/Sequence/Not/Star over Boolean/Null + tag matchers for the keywords true null << >> endstream R + two scanners, bv:3, u16le, i32be; "
+            "(2) every window ending before the storage's end (thorough: every window) x every cursor of every storage of length <= 2 over the 30-symbol alphabet under the 31 parsers "
+            "(thorough: + one fifth of the length-3 storages), and of every storage of length <= 3 (thorough <= 4) over {A,B,C,0x80,1,blank} under AsciiChar, the 17 composites, "
+            "BinaryMatcher(A / AB) and Alternate/Sequence/Not/Star over BinaryMatcher(AB), BinaryMatcher(BA); "
+            "(3) 30 (thorough 300) random storages of 0..9 bytes x every cursor x windows as in (1) under the 17 binary parsers (the integer's missing bytes lie behind the view); "
+            "(4) every random token concatenation also on one window chosen with the model's help (view ends inside the span the parser reports on the whole storage, at its end or one "
+            "byte after; anywhere after the cursor if it fails) and on that window nested in a wider one; corpus/C15/cut_windows.case holds the minimal instances. "
+            "The oracle's buffer for a cut window is the window: end <= window size, span inside the window, failure leaves the cursor; "
             "non-trivial = buffer of >= 2 bytes or non-zero cursor (counted distinct by hash of the case)",
     "trusted_base": COMMON_TB + [
         "modelled, not verified: ParseBuffer primitives as list functions on a whole buffer (views: C17); std::str::from_utf8 as validUtf8",
